@@ -94,3 +94,30 @@ Proof.
   split; [exists false; vm_compute; reflexivity|].
   repeat split; vm_compute; reflexivity.
 Qed.
+
+(* ---- requests that arrive in a state other than continuous ---------------------------------------------------- *)
+(* the states after each operation *)
+Definition states_of (line : bytes) : list N :=
+  map (fun s => match st_snap s with Some sn => sn_state sn | None => 0 end) (run_history schema0 (parse_history line)).
+(* the same trace with the OUT events of the last step removed: what a session that silently drops the request prints *)
+Definition drop_answer (tr : trace) : trace :=
+  match rev tr with
+  | l :: r => rev (mkStep (filter (fun e => match e with EOut _ => false | _ => true end) (st_events l)) (st_snap l) :: r)
+  | [] => []
+  end.
+Definition judged_ok_dropped_bad (line : bytes) : bool * N * bool :=
+  (c18_ok_line line (run_line schema0 line), c18_judged_line line (run_line schema0 line),
+   c18_ok (parse_history line) (drop_answer (run_history schema0 (parse_history line)))).
+
+(* store {2,3}, request [2,0] delivered (a) with its own number ahead of the expected one, (b) while a
+   TestRequest is pending (state 9), (c) while our ResendRequest is pending (state 12): the model answers in
+   full, the oracle judges the step and accepts it, and rejects the same trace with the answer left out *)
+Theorem states_judged :
+  judged_ok_dropped_bad line_ahead = (true, 1, false) /\
+  judged_ok_dropped_bad line_testreq = (true, 1, false) /\ nth 7 (states_of line_testreq) 0 = st_test_request_sent /\
+  judged_ok_dropped_bad line_sent = (true, 1, false) /\ nth 7 (states_of line_sent) 0 = st_resend_request_sent /\
+  map brief (answer_items schema0 line_ahead) =
+    [IMsg [(dec T_MsgType, [50]); (dec T_MsgSeqNum, dec 4)];
+     IMsg [(dec T_MsgType, [68]); (dec T_MsgSeqNum, dec 2)]; IMsg [(dec T_MsgType, [68]); (dec T_MsgSeqNum, dec 3)];
+     IGap 4 5].
+Proof. repeat split; vm_compute; reflexivity. Qed.
